@@ -44,6 +44,8 @@ def build(node, recs, path="r"):
             obj = S.RandomUniformSampler(dom, filter_fn=flt, **kw)
         elif cls == "Grid":
             obj = S.GridSampler(dom, filter_fn=flt, **kw)
+        elif cls == "ExpInterval":
+            obj = S.ExponentialIntervalSampler(dom, n_points=int(node["n"]), exponent=float(node["exp"]))
         elif cls == "LHS":
             obj = S.LHSSampler(dom, n_points=int(node["n"]))
         elif cls == "Gaussian":
@@ -87,6 +89,18 @@ def build(node, recs, path="r"):
 
 
 # -------------------------------------------------------------- R-count
+def _fixed_n_tree(node):
+    """Every leaf has n_points and no filter (the announced length is then n for every history)."""
+    s = node["s"]
+    if s == "leaf":
+        return bool(node.get("n")) and not node.get("filter")
+    if s in ("data", "empty"):
+        return True
+    if s == "static":
+        return _fixed_n_tree(node["a"])
+    return _fixed_n_tree(node["a"]) and _fixed_n_tree(node["b"])
+
+
 def rows_of(node, k, actual=None):
     """Expected number of rows for k incoming parameter rows (None = unknown: density)."""
     s = node["s"]
